@@ -160,21 +160,59 @@ def r19_2(ctx):
     stores = [n for n in ast.walk(f.node) if isinstance(n, ast.Assign) and isinstance(n.targets[0], ast.Subscript) and ast.unparse(n.targets[0].value) == cache]
     construct = "_find_project_root/cache filled only for the walked chain with that chain's answer"
     msgs = []
-    for s in stores:
-        par = repo.parent(s)
-        if not (isinstance(par, ast.For) and ast.unparse(par.iter) == "checked" and ast.unparse(s.targets[0].slice) == ast.unparse(par.target)):
-            msgs.append(f"line {s.lineno}: store for a directory that is not on the walked chain")
-        if ast.unparse(s.value) not in ("result", "path", "None"):
-            msgs.append(f"line {s.lineno}: stores {ast.unparse(s.value)}")
-    apps = [n for n in ast.walk(f.node) if isinstance(n, ast.Call) and ast.unparse(n.func) == "checked.append"]
-    if not apps or any(ast.unparse(a.args[0]) != "path" for a in apps):
-        msgs.append("`checked` no longer collects exactly the walked directories")
-    if len(stores) != 3:
-        msgs.append(f"{len(stores)} cache stores instead of the three exits (hit, found, none)")
+    # (i) every store is `cache[d] = V` in a loop `for d in L` over a local list L that only ever receives the directory the
+    #     walk currently stands on; (ii) V is what the function returns on the way out of that loop
+    walker = None
+    for c in ast.walk(f.node):
+        if isinstance(c, ast.Call) and ast.unparse(c.func) == "_is_project_root" and c.args and isinstance(c.args[0], ast.Name):
+            walker = c.args[0].id
+    if walker is None:
+        raise AnchorError("_find_project_root: the walking variable (argument of _is_project_root) not found")
+    lists = set()
+    for s_ in stores:
+        par = repo.parent(s_)
+        if not (isinstance(par, ast.For) and isinstance(par.iter, ast.Name) and ast.unparse(s_.targets[0].slice) == ast.unparse(par.target)):
+            msgs.append(f"line {s_.lineno}: store for a directory that is not taken from the list of walked directories")
+            continue
+        lists.add(par.iter.id)
+        # the value stored is the value returned next
+        blk = repo.parent(par)
+        body = None
+        for fld in ("body", "orelse", "finalbody"):
+            b_ = getattr(blk, fld, None)
+            if isinstance(b_, list) and par in b_:
+                body = b_
+        nxt = [x for x in (body[body.index(par) + 1:] if body else []) if isinstance(x, ast.Return)]
+        if not nxt or ast.unparse(nxt[0].value) != ast.unparse(s_.value):
+            msgs.append(f"line {s_.lineno}: the cache receives `{ast.unparse(s_.value)}` but the function returns "
+                        f"`{ast.unparse(nxt[0].value) if nxt else 'something else'}` for that chain")
+    if len(lists) > 1:
+        msgs.append(f"several directory lists {sorted(lists)}")
+    for L in lists:
+        apps = [n for n in ast.walk(f.node) if isinstance(n, ast.Call) and ast.unparse(n.func) == f"{L}.append"]
+        other = [n for n in ast.walk(f.node) if isinstance(n, ast.Call) and isinstance(n.func, ast.Attribute) and ast.unparse(n.func.value) == L
+                 and n.func.attr in ("extend", "insert", "remove", "pop", "clear")]
+        if not apps or other or any(ast.unparse(a_.args[0]) != walker for a_ in apps):
+            msgs.append(f"`{L}` no longer collects exactly the walked directories")
+    if not stores:
+        msgs.append("the cache is never filled")
+    # (iii) the cache is only ever consulted for the directory the walk stands on: an answer taken from another key (the
+    #       parent's, say) skips this directory's own test
+    for n in ast.walk(f.node):
+        key = None
+        if isinstance(n, ast.Subscript) and isinstance(n.ctx, ast.Load) and ast.unparse(n.value) == cache:
+            key = n.slice
+        elif isinstance(n, ast.Call) and ast.unparse(n.func) in (f"{cache}.get", f"{cache}.__contains__") and n.args:
+            key = n.args[0]
+        elif isinstance(n, ast.Compare) and len(n.ops) == 1 and isinstance(n.ops[0], (ast.In, ast.NotIn)) and ast.unparse(n.comparators[0]) == cache:
+            key = n.left
+        if key is not None and ast.unparse(key) != walker:
+            msgs.append(f"line {n.lineno}: the cache is consulted for `{ast.unparse(key)}`, not for the directory under examination")
     # hit: returns cached answer; found: the directory itself
     (ctx.bad(construct, "; ".join(msgs), f.loc()) if msgs else ctx.ok(construct, f.loc(), stores=len(stores)))
     construct = "_find_project_root/keys are absolute paths"
-    ok = any(isinstance(n, ast.Assign) and ast.unparse(n.value) == "os.path.abspath(path)" for n in f.node.body)
+    p0 = f.node.args.args[0].arg
+    ok = any(isinstance(n, ast.Assign) and ast.unparse(n.value) == f"os.path.abspath({p0})" for n in f.node.body)
     (ctx.ok(construct, f.loc(), nontrivial=False) if ok else ctx.bad(construct, "relative and absolute spellings get separate cache entries", f.loc()))
 
 
